@@ -21,11 +21,18 @@ Definition B (n : Z) (ws : list int) : bytes := firstn (Z.to_nat n) (concat (map
 Definition E (str : list (bytes * bytes)) (num : list (bytes * Z)) (flt : list (bytes * bytes)) (readers : list bytes) : entity :=
   {| e_str := str; e_num := num; e_flt := flt; e_readers := readers |}.
 
+(* the same with the field names of the kind given once (preamble of the cases file) *)
+Definition EZ (sn nn fn : list bytes) (sv : list bytes) (nv : list Z) (fv : list bytes) (readers : list bytes) : entity :=
+  E (combine sn sv) (combine nn nv) (combine fn fv) readers.
+
 (* ---- what the property calls for ---- *)
 Inductive val := VI (z : Z) | VT (tok : bytes).       (* integer counter / FormatFloat token *)
 (* one entity (or the zero lines of one kind): its label set sorted by key (None: no label set) and, per metric
    name, the value *)
 Inductive expent := X (tags : option (list label)) (vals : list (bytes * val)).
+
+Definition XE (tags : option (list label)) (names : list bytes) (vals : list val) : expent := X tags (combine names vals).
+Definition XZ (names : list bytes) : expent := X None (map (fun n => (n, VI 0)) names).
 
 Inductive case :=
 | Scrape (paths : option (list entity)) (fwd : list (bytes * option (list entity))) (srv : list (kind * listing))
